@@ -541,10 +541,21 @@ def execute_history_c12(spec, camp):
             cur = fs.get(path)
             if cur is None:
                 continue
-            new, ok = replace_block(cur.decode("utf-8", "replace"), name, op["body"], op.get("indent", ""))
+            body = list(op["body"])
+            if int(op["pick"] * 6151) % 5 == 0:
+                # people copy what they see: the user's code repeats the generated line just above the
+                # block (e.g. another `use` statement, another #include) as its first line
+                text_ = cur.decode("utf-8", "replace").split("\n")
+                at = [i for i, l in enumerate(text_) if BEGIN in l and l.split(BEGIN, 1)[1].split()[:1] == [name]]
+                above = [l.strip() for l in text_[:at[0]] if l.strip() and BEGIN not in l and END not in l] if at else []
+                if above and above[-1][:1] not in META and not above[-1].endswith("+") \
+                        and "\t" not in above[-1] and "\f" not in above[-1]:
+                    body = [above[-1]] + body
+                    probe("body_repeats_generated_line")
+            new, ok = replace_block(cur.decode("utf-8", "replace"), name, body, op.get("indent", ""))
             if ok:
                 fs.put(path, new)
-                store.gen.setdefault(lang, {})[name] = list(op["body"])
+                store.gen.setdefault(lang, {})[name] = list(body)
                 probe("edit_gen")
                 events.append(("EDIT_GEN", lang, name, len(op["body"])))
         elif kind == "EDIT_OUTSIDE":
